@@ -204,7 +204,7 @@ var programmingLanguagesBlock = func() string {
 }()
 
 var modes = []struct {
-	name                        string
+	name                       string
 	builders, converters, all7 bool
 }{{"types", false, false, true}, {"types+builders", true, false, false}, {"types+builders+converters", true, true, false}}
 
